@@ -64,8 +64,10 @@ def probe_cfg(ctx):
     else:
         ctx.tie_broken("translator", "probe:unattached-list", f"unexpected initializer names {r['inits']}")
         propagates = False
+    # 4. two different Parameter objects under one qualified name: silently replaced / ValueError (not a field of the
+    #    Coq `cfg` record: the separate flag of Modules.v `call_result`)
     return {"realize_uses_root_scope": uses_root, "container_renames_named_child": renames,
-            "unattached_list_propagates": propagates}
+            "unattached_list_propagates": propagates, "raises_on_collision": SH.probe_collision(ctx)}
 
 
 def cfg_lit(cfg):
@@ -156,7 +158,7 @@ def run_trees(ctx, cfg):
                           {"program": T.spec_lit(spec)})
         if r["error"]:
             stats["errors"] += 1
-            invalid.append((name, spec, r["error"]))
+            invalid.append((name, spec, r["error"] + (":" + r["collision"] if r["error"] == "NameCollision" else "")))
             continue
         # ---- direct oracle: the property on the real code (decided below, once the model has been evaluated)
         want = [(_root_name(spec) + "." + k) if _root_name(spec) else k for k in r["sd"]]
@@ -171,6 +173,7 @@ def run_trees(ctx, cfg):
 
     # ---- correspondence: the Coq model on the same programs, with the probed configuration
     cf = cfg_lit(cfg)
+    chk = SH.chk_lit(cfg)        # probed: Parameter._realize raises when the name is used by another Parameter object
     bad_total, hyp_true, hyp_but_mismatch = [], 0, []
     shard = 400
     bodies = []
@@ -179,16 +182,18 @@ def run_trees(ctx, cfg):
         bodies.append(f"Definition cf := {cf}.\nDefinition cases : list case := {clist(chunk)}.\n"
                       "Eval vm_compute in (disagreeing cf 0 cases).\n"
                       "Eval vm_compute in (map (fun c : case => let '(s, _, _) := c in program_okb cf s) cases).\n"
-                      "Eval vm_compute in (map (fun c : case => let '(s, _, _) := c in callable_ok (construct cf s)) cases).\n")
+                      "Eval vm_compute in (map (fun c : case => let '(s, _, _) := c in callable_ok (construct cf s)) cases).\n"
+                      f"Eval vm_compute in (map (fun c : case => let '(s, _, _) := c in returns (call_result {chk} cf (construct cf s))) cases).\n")
     results = ctx.coq_eval_shards(REQ_A, bodies)
     for k, (okc, vals, raw) in enumerate(results):
-        if not okc or len(vals) < 3:
+        if not okc or len(vals) < 4:
             ctx.tie_broken("correspondence", "modelA:evaluation", raw[-1500:])
             continue
         for j in common.parse_nat_list(vals[0]):
             bad_total.append(k * shard + j)
         hyps = _parse_bools(vals[1])
         valid = _parse_bools(vals[2])
+        returns = _parse_bools(vals[3])
         for j, h in enumerate(hyps):
             name, spec, r, ok, feats, what = meta[k * shard + j]
             if h:
@@ -197,6 +202,17 @@ def run_trees(ctx, cfg):
                     hyp_but_mismatch.append(name)
             if not valid[j]:
                 ctx.tie_broken("correspondence", "modelA:validity", f"{name}: the real code ran but the model says calling raises")
+            if not returns[j]:
+                # the model (raises_on_collision probed true) raises ValueError for this program, the real call returned
+                lost = not all(sum(1 for v in r["init_ids"].values() if v == pobj) == 1 for pobj in set(r["sd_ids"]))
+                if lost:
+                    shared = len(set(feats["pids"])) != len(feats["pids"])
+                    ctx.violation(SH.K_COLLIDE if shared else "C18:naming:name-collision-not-rejected-without-sharing",
+                                  f"{name}: two Parameter objects are realised under one name and an initializer is lost although "
+                                  f"Parameter._realize rejects the minimal collision (probe): initializers {r['inits']}, state_dict {r['sd']}",
+                                  {"program": T.spec_lit(spec), "initializers": r["inits"], "state_dict": r["sd"]})
+                else:
+                    ctx.tie_broken("correspondence", "modelA:collision", f"{name}: the real code ran but the model says Parameter._realize raises")
     bad_set = set(bad_total)
     for i, (name, spec, r, ok, feats, what) in enumerate(meta):
         doc = {"program": T.spec_lit(spec), "initializers": r["inits"], "state_dict": r["sd"]}
@@ -217,14 +233,23 @@ def run_trees(ctx, cfg):
     for name in hyp_but_mismatch:
         ctx.tie_broken("correspondence", "modelA:hypotheses", f"{name}: program_okb holds but the real names differ from state_dict keys")
     if invalid:
-        body = (f"Definition cf := {cf}.\nEval vm_compute in (map (fun s => callable_ok (construct cf s)) "
-                f"{clist([T.spec_lit(s) for _n, s, _e in invalid])}).\n")
+        body = (f"Definition cf := {cf}.\nDefinition specs := {clist([T.spec_lit(s) for _n, s, _e in invalid])}.\n"
+                "Eval vm_compute in (map (fun s => callable_ok (construct cf s)) specs).\n"
+                f"Eval vm_compute in (map (fun s => outcome_view (call_result {chk} cf (construct cf s))) specs).\n")
         okc, vals, raw = ctx.coq_eval(REQ_A, body)
-        if not okc:
+        views = [(a == "true", b) for a, b in SH._VIEW.findall(vals[1])] if okc and len(vals) >= 2 else []
+        if not okc or len(views) != len(invalid):
             ctx.tie_broken("correspondence", "modelA:evaluation", raw[-1500:])
         else:
-            for (name, spec, err), v in zip(invalid, _parse_bools(vals[0])):
-                if v:
+            for (name, spec, err), v, (m_returns, m_name) in zip(invalid, _parse_bools(vals[0]), views):
+                if err.startswith("NameCollision"):
+                    # ValueError of Parameter._realize: agrees with the model iff call_result (probed flag) raises for that name
+                    stats["collisions_rejected"] = stats.get("collisions_rejected", 0) + 1
+                    if m_returns or err != "NameCollision:" + m_name:
+                        ctx.tie_broken("correspondence", "modelA:collision",
+                                       f"{name}: real code raised {err}, the model (raises_on_collision = {cfg['raises_on_collision']}) "
+                                       + ("returns" if m_returns else f"raises for {m_name!r}") + f": {T.spec_lit(spec)[:600]}")
+                elif v:
                     ctx.tie_broken("correspondence", "modelA:validity", f"{name}: real code raised {err}, model says callable")
     ctx.obligation("correspondence A: initializer names and state_dict keys of the real nn classes = Modules.v (probed cfg) on every program",
                    not bad_total, f"{len(bad_total)} disagreements")
@@ -232,7 +257,7 @@ def run_trees(ctx, cfg):
                    not hyp_but_mismatch)
     ctx.cover(trees=len(specs), trees_ran=len(cases), trees_raising=stats["errors"], trees_hypotheses_hold=hyp_true,
               trees_explicit_names_outside_hypotheses=stats["hyp_explicit"], trees_model_disagreements=len(bad_total),
-              probed_cfg=cfg)
+              trees_rejected_by_collision_check=stats.get("collisions_rejected", 0), probed_cfg=cfg)
 
 
 def _parse_bools(s):
@@ -244,7 +269,7 @@ def _parse_bools(s):
 
 # ----------------------------------------------------------------------------- models B/C: traces
 
-REQ_T = ["OV.Graph.Syntax", "OV.Graph.Sem", "OV.Graph.Wf", "OV.Builder.Strings", "OV.Builder.Naming", "OV.Builder.Trace", "OV.Builder.TraceCF"]
+REQ_T = ["OV.Graph.Syntax", "OV.Graph.Sem", "OV.Graph.Wf", "OV.Builder.Strings", "OV.Builder.Naming", "OV.Builder.Trace", "OV.Builder.TraceCF", "OV.Builder.TraceNames"]
 
 K_REDEF = "C18:names:subgraph-value-redefines-outer-name"
 K_DISJ = "C18:names:disjoint-subgraphs-share-value-names"
@@ -419,13 +444,15 @@ def run_traces(ctx, bcfg):
                       f"Eval vm_compute in (tdisagreeing {bc} 0 cases).\n"
                       "Eval vm_compute in (map (fun c => wf_graphb (tcase_graph c)) cases).\n"
                       f"Eval vm_compute in (map (tcase_hyps {bc}) cases).\n"
+                      "Eval vm_compute in (map (fun c : tcase => let '(ins, tr, _, _, _) := c in (plain_trace tr, user_okb ins tr)) cases).\n"
                       f"Definition expected : list (option (list Z)) := {clist(toy_expected[a:a + shard], lambda x: 'None' if x is None else '(Some ' + clist(x, common.cz) + ')')}.\n"
                       f"Eval vm_compute in (toy_disagreeing {bc} 0 (map (fun p => toy_of (fst p) (snd p)) (combine cases expected))).\n")
     res = ctx.coq_eval_shards(REQ_T, bodies, par=4)
     disagree, wf_bad, toy_bad, hyp_bad = [], [], [], []
+    fix_cnt, fix_bad = {"plain": 0, "user_ok": 0, "both": 0}, []
     hyp_cnt = {"hold": 0, "hold_cf": 0, "hold_castlike": 0, "toy_read": 0, "toy_read_cf": 0}
     for k, (okc, vals, raw) in enumerate(res):
-        if not okc or len(vals) < 4:
+        if not okc or len(vals) < 5:
             ctx.tie_broken("correspondence", "modelBC:evaluation", raw[-1500:])
             continue
         dis = set(common.parse_nat_list(vals[0]))
@@ -457,7 +484,21 @@ def run_traces(ctx, bcfg):
             if toy_expected[k * shard + j] is not None:
                 hyp_cnt["toy_read"] += 1
                 hyp_cnt["toy_read_cf"] += cfl
-        toy_bad += [coq_meta[k * shard + j] for j in common.parse_nat_list(vals[3])]
+        toy_bad += [coq_meta[k * shard + j] for j in common.parse_nat_list(vals[4])]
+        # hypotheses of C18_names_unique_across_subgraphs_fixed, on the trace alone
+        pairs = [x.strip().strip("()").split(",") for x in vals[3].strip().strip("[]").split(";")] if vals[3].strip() not in ("[]", "nil") else []
+        for j, pr in enumerate(pairs):
+            plain, uok = pr[0].strip() == "true", pr[1].strip() == "true"
+            t, mode, scan, cfl, castl, dups = hyp_meta[k * shard + j]
+            if mode != "call":
+                continue
+            fix_cnt["plain"] += plain
+            fix_cnt["user_ok"] += uok
+            fix_cnt["both"] += plain and uok
+            if bcfg["shared_counter"] and plain and uok and dups:
+                fix_bad.append((t, mode, "the hypotheses of C18_names_unique_across_subgraphs_fixed hold but the real graph repeats a name"))
+            if bcfg["shared_counter"] and not uok and not dups:
+                fix_bad.append((t, mode, "user_okb is false on a generated trace whose names are all distinct (generator names are chosen distinct and not of generated shape)"))
         for j, b in enumerate(_parse_bools(vals[1])):
             t, mode, dups = wf_meta[k * shard + j]
             if not b and not dups:
@@ -500,6 +541,11 @@ def run_traces(ctx, bcfg):
     ctx.obligation("correspondence C: TraceCF.creplay (toy kernels over Z) = the harness's own reading of every trace, and = eval_graph on the graph the real "
                    "GraphBuilder built", not toy_bad, f"{len(toy_bad)} disagreements")
     ctx.obligation("hypotheses of C18_build_computes_trace_cf_checked (cf_hypsb) hold on every call-mode trace without Scan", not hyp_bad)
+    for (t, mode, why) in fix_bad[:5]:
+        ctx.tie_broken("correspondence", "modelB:user-names", f"trace {t} ({mode}): {why}")
+    ctx.obligation("hypotheses of C18_names_unique_across_subgraphs_fixed (user_okb: the caller's names, read off the trace alone) hold on every generated "
+                   "call-mode trace, and never hold on a trace whose real graph repeats a name", not fix_bad)
+    ctx.cover(traces_plain_operator_names=fix_cnt["plain"], traces_user_names_ok=fix_cnt["user_ok"], traces_names_unique_theorem_applies=fix_cnt["both"])
     ctx.cover(traces_cf_hypotheses_hold=hyp_cnt["hold"], traces_cf_hypotheses_hold_with_if_or_loop=hyp_cnt["hold_cf"],
               traces_cf_hypotheses_hold_with_castlike=hyp_cnt["hold_castlike"], traces_toy_reading_defined=hyp_cnt["toy_read"],
               traces_toy_reading_defined_with_if_or_loop=hyp_cnt["toy_read_cf"])
@@ -611,7 +657,8 @@ def run_inline_args(ctx):
 def run(ctx):
     ctx.assume("model A: forward() of every generated module calls each child exactly once (or twice) in registration order, "
                "ModuleLists are iterated (optionally through forward-time slices); modules shared by two parents are not modelled")
-    ctx.assume("model A: cfg (three code behaviours with proposed patches) is probed on the real code at the start of every run")
+    ctx.assume("model A: cfg (three code behaviours with proposed patches) and raises_on_collision (Parameter._realize rejects a name "
+               "used by another Parameter object) are probed on the real code at the start of every run")
     ctx.assume("models B/C: shared_counter is probed; which literal operands share a constant-cache entry is observed on the real builder "
                "(C12 owns literal promotion); the dtype knowledge of the builder (shape inference) is observed per value; nodes added by "
                "call_inline are observed (CRaw), not modelled; attribute order inside a node is not compared")
